@@ -204,8 +204,8 @@ def parts(tier):
     if tier == "quick":
         return [CH("decision", "vflib.props.c13:scen_decision", {}, shards=7, timeout=170, path_timeout=30, mode="CH-P"),
                 CH("cli", "vflib.props.c13:scen_cli", {}, shards=16, timeout=170, path_timeout=30)]
-    return [CH("decision", "vflib.props.c13:scen_decision", {}, shards=7, timeout=400, path_timeout=30, mode="CH-P"),
-            CH("cli", "vflib.props.c13:scen_cli", {}, shards=16, timeout=400, path_timeout=30)]
+    return [CH("decision", "vflib.props.c13:scen_decision", {}, shards=7, timeout=250, path_timeout=30, mode="CH-P"),
+            CH("cli", "vflib.props.c13:scen_cli", {}, shards=16, timeout=250, path_timeout=30)]
 
 
 META = {
